@@ -633,11 +633,11 @@ static void DecodeEmulOneToTwo(Word Code) {
         else if ((DestParts.Mode == eModeRegDisp) && (DestParts.Part == RegPC)) {
             LongWord NewDist = DestParts.Val - 2;
 
-            /* within 64K, PC-relative addresses wrap around (see DecodeAdr()); only the
-               negative 20-bit distance of an instruction located above 64K may leave
-               the 16-bit range: */
+            /* within 64K, PC-relative addresses wrap around (see DecodeAdr()); only on the
+               MSP430X the negative 20-bit distance of an instruction located above 64K
+               may leave the 16-bit range: */
 
-            if ((DestParts.Val > 0xffff) && ((NewDist & 0xfffff) < 0xf8000)) {
+            if ((MomCPU >= CPUMSP430X) && (DestParts.Val > 0xffff) && ((NewDist & 0xfffff) < 0xf8000)) {
                 WrError(ErrNum_DistTooBig);
                 return;
             }
